@@ -304,3 +304,25 @@ Lemma d9_was_violated :
   (* the repaired code skips both *)
   poll KFile 10 50000%float ReadErr = 50000%float /\ poll KCmd 10 45.5%float (ValF nan) = 45.5%float.
 Proof. vm_compute. repeat split; reflexivity. Qed.
+
+(* the binary64 contraction: one poll with a valid reading x shrinks the distance to x by the factor
+   (1 - 1/n) up to the rounding slack 8*uu*(|avg|+|x|) + 2*eta0 = 2^-50*(|avg|+|x|) + 2^-1074
+   (uu = 2^-53 unit roundoff, eta0 = 2^-1075 half the smallest subnormal); window 2 <= n < 2^53 *)
+Theorem converges_step k n a r v : 2 <= n < 2 ^ 53 -> boundedb a = true -> value_of k r = Some v -> boundedb v = true ->
+  (Rabs (R_of v - R_of (poll k n a r)) <=
+   (1 - 1 / IZR n) * Rabs (R_of v - R_of a) + 8 * uu * (Rabs (R_of a) + Rabs (R_of v)) + 2 * eta0)%R.
+Proof.
+  intros Hn Ha Ev Hv. rewrite (poll_value k n a r v Ev).
+  apply boundedb_bnd in Ha, Hv.
+  destruct (upd_R a n v Ha Hv ltac:(lia)) as [_ [E [Hr Hr2]]]. cbv zeta in *.
+  specialize (Hr2 ltac:(lia)).
+  assert (EN : round radix2 (FLT_exp (-1074) 53) ZnearestE (IZR n) = IZR n).
+  { apply round_generic; auto with typeclass_instances. apply format_IZR. lia. }
+  rewrite EN in *. rewrite E.
+  apply contraction_R.
+  - apply format_R_of.
+  - apply format_R_of.
+  - apply IZR_le. lia.
+  - reflexivity.
+  - lra.
+Qed.
